@@ -144,6 +144,7 @@ func evalEnvironment(
 
 type imported struct {
 	evaluating bool
+	failed     bool // true if the environment could not be loaded or parsed; its diagnostics have been reported
 	value      *value
 }
 
@@ -442,15 +443,20 @@ func (e *evalContext) evaluateImport(myImports map[string]*value, decl *ast.Impo
 	}
 
 	var val *value
-	if imported, ok := e.imports[name]; ok {
-		if imported.evaluating {
+	if prior, ok := e.imports[name]; ok {
+		if prior.evaluating {
 			e.diags.Extend(syntax.Error(decl.Syntax().Syntax().Range(), fmt.Sprintf("cyclic import of %v", name), decl.Syntax().Syntax().Path()))
 			return
 		}
-		val = imported.value
+		if prior.failed {
+			// An earlier import of this environment failed; the failure has been reported and is not retried.
+			return
+		}
+		val = prior.value
 	} else {
 		bytes, dec, err := e.environments.LoadEnvironment(e.ctx, name)
 		if err != nil {
+			e.imports[name] = &imported{failed: true}
 			e.errorf(decl.Environment, "%s", err.Error())
 			return
 		}
@@ -458,11 +464,13 @@ func (e *evalContext) evaluateImport(myImports map[string]*value, decl *ast.Impo
 		env, diags, err := LoadYAMLBytes(name, bytes)
 		e.diags.Extend(diags...)
 		if err != nil {
+			e.imports[name] = &imported{failed: true}
 			e.errorf(decl.Environment, "%s", err.Error())
 			return
 		}
 		if env == nil {
 			// The imported definition could not be parsed; its diagnostics have been recorded above.
+			e.imports[name] = &imported{failed: true}
 			return
 		}
 
